@@ -105,6 +105,12 @@ def build() -> Check:
                     d = so.fields.get("next_attempt_delay_seconds") if isinstance(so, Obj) else None
                     if d is None or not at_least_one(d, t.pc):
                         bad2.append((f"RETRY delay {d.key() if d else None} is not bounded below by 1 second", t))
+                    elif not ("delay" in d.key() and "ret:" in d.key()):
+                        # ... and it is the delay the strategy decided: a constant is acceptable only as the clamp of a decided delay below one second
+                        clamp = isinstance(d, Const) and any(str(k).startswith("ret:") and "delay" in str(k) and str(k).endswith("< 1") and v is True for k, v in t.pc)
+                        if not clamp:
+                            bad2.append((f"the RETRY record carries the delay {d.key()}, not the one the strategy decided (a constant is only the clamp of a decided delay "
+                                         "below one second): the configured backoff is ignored", t))
                     if not is_timed_suspend(prog, t):
                         bad2.append(("retry recorded but the call does not end in a timed suspension", t))
                     err = r[-1].data.get("error_v")
@@ -323,6 +329,24 @@ def build() -> Check:
             n_guarded += 1
             body_txt = "\n".join(ast.unparse(b_) for b_ in hs[0].body)
             unseen = [ast.unparse(c_) for c_ in cof if ast.unparse(c_) not in body_txt]
+            # ... and what it substitutes is what the product would have been, on the sign table of the factors: a zero factor gives zero, a negative
+            # rate with an odd exponent a negative product (floored to the minimum), everything else lies beyond the cap (mutscan: condition negated, parity
+            # inverted - nothing noticed)
+            from sa.common import MiniEvalUnknown, mini_eval
+            fb = [st for b_ in hs[0].body for st in ast.walk(b_) if isinstance(st, ast.Assign) and isinstance(st.targets[0], ast.Name)]
+            if len(fb) == 1:
+                wrong_ = []
+                try:
+                    for init_, rate_, att_ in ((5, 2.0, 1030), (0, 2.0, 1030), (5, -2.0, 1025), (5, -2.0, 1026), (0, -2.0, 1025)):
+                        env_ = {"config.initial_delay_seconds": init_, "config.backoff_rate": rate_, "attempts_made": att_, "config.max_delay_seconds": 300}
+                        got_ = mini_eval(fb[0].value, env_)
+                        exp_even = (att_ - 1) % 2 == 0
+                        want_cap = init_ > 0 and (rate_ > 0 or exp_even)
+                        if (got_ == 300) != want_cap or (not want_cap and got_ > 0):
+                            wrong_.append(f"initial={init_}, rate={rate_}, exponent {'even' if exp_even else 'odd'}: fallback {got_} (the product would be {'beyond the cap' if want_cap else 'zero or negative'})")
+                    ck.ob("R4.overflow-fallback-follows-the-product", fn_construct(f_), not wrong_, "; ".join(wrong_[:2]) or "sign table of 5 factor combinations", cell="sign table")
+                except MiniEvalUnknown as u_:
+                    ck.undecided_rule(f"R4.overflow-fallback-follows-the-product: `{u_}` in the fallback of {f_.name} is not understood")
             ck.ob("R4.overflow-fallback-follows-the-product", fn_construct(f_), not unseen,
                   f"the OverflowError handler (line {hs[0].lineno}) substitutes a value without looking at {unseen}: with a zero initial delay the product is 0 for every "
                   "attempt (delay = the 1 s minimum) but from the first attempt whose power overflows (1025 with the default rate 2.0, 32 with 1e10) the cap - 300 s - is "
